@@ -371,4 +371,37 @@ theorem Registry.le_registerAll (r : Registry α) (l : List (Bytes × Codec α))
       · rw [Registry.register_other r' tc.1 t tc.2 e]; exact h' t x hx
     · intro tc' m; exact hl tc' (by simp [m])
 
+
+/-! ### the store glue: writes under other keys, deletions of other keys -/
+
+theorem SStore.get_set_other (cfg : Cfg α) (rw rr : Registry α) (st : SStore α) (k k' : Bytes) (v : Val α) (hne : k ≠ k') :
+    (st.set cfg rw k v).get cfg rr k' = st.get cfg rr k' := by
+  unfold SStore.set
+  cases encode cfg rw k v with
+  | none => rfl
+  | some w => simp [SStore.get, SStore.lookup, hne]
+
+theorem SStore.get_setMany_other (cfg : Cfg α) (rw rr : Registry α) (ps : List (Bytes × Val α)) (st : SStore α) (k : Bytes)
+    (hk : k ∉ ps.map (·.1)) : (SStore.setMany cfg rw st ps).get cfg rr k = st.get cfg rr k := by
+  induction ps generalizing st with
+  | nil => rfl
+  | cons p r ih =>
+    simp only [List.map_cons, List.mem_cons, not_or] at hk
+    simp only [SStore.setMany, List.foldl_cons]
+    have := ih (st.set cfg rw p.1 p.2) hk.2
+    simp only [SStore.setMany] at this
+    rw [this, SStore.get_set_other cfg rw rr st p.1 k p.2 (fun e => hk.1 e.symm)]
+
+theorem SStore.lookup_filter_keep (st : SStore α) (p : Bytes → Bool) (k : Bytes) (hk : p k = true) :
+    SStore.lookup (st.filter fun kv => p kv.1) k = SStore.lookup st k := by
+  induction st with
+  | nil => rfl
+  | cons kv r ih =>
+    by_cases hp : p kv.1 = true
+    · simp only [List.filter_cons, hp, if_true, SStore.lookup]
+      split <;> simp [ih]
+    · have hne : kv.1 ≠ k := fun e => hp (by rw [e]; exact hk)
+      simp only [List.filter_cons, hp, SStore.lookup, hne, if_false]
+      exact ih
+
 end CashewsVerif.Serial
